@@ -556,6 +556,26 @@ func runC03(ctx *Ctx) error {
 		}
 		docs = append(docs, dt)
 	}
+	// an earlier generation of the process replaced the routing templates of every framework by templates of its own
+	// (they register nothing): the servers examined below are generated afterwards, with the built-in templates
+	{
+		var uc codegen.Configuration
+		uc.PackageName = "usertpl"
+		uc.Generate.Models = true
+		uc.OutputOptions.UserTemplates = map[string]string{}
+		for _, tn := range []string{"chi/chi-handler.tmpl", "echo/echo-register.tmpl", "fiber/fiber-handler.tmpl", "gin/gin-register.tmpl",
+			"gorilla/gorilla-register.tmpl", "iris/iris-handler.tmpl", "stdhttp/std-http-handler.tmpl"} {
+			uc.OutputOptions.UserTemplates[tn] = "// routes of the other package\n"
+		}
+		for _, fw := range allFrameworks {
+			c := uc
+			setFramework(&c, fw)
+			if spec, err := loadDoc(docs[0].doc); err == nil {
+				_, _ = generate(spec, c)
+				ctx.Res.Count("generation-with-user-routing-templates-first")
+			}
+		}
+	}
 	kit.Prepare()
 	values := []string{"v1", "x y", "é", "a+b", "a:b", "42", "ITEMS"}
 	for di, dt := range docs {
